@@ -129,6 +129,18 @@ Definition cases_forest (parent_path : str) (ts : list tree) : list str :=
 
 Definition cases (ts : list tree) : list str := cases_forest [] ts.
 
+(** The benchmark entries (leaves) with the cases each of them stands for; this
+    is the granularity of [--list], which does not print arguments. *)
+Fixpoint leaf_cases_tree (parent_path : str) (t : tree) : list (str * list str) :=
+  let subtree_path := child_path parent_path (tree_name t) in
+  match t with
+  | Parent _ children => flat_map (leaf_cases_tree subtree_path) children
+  | Leaf _ None => [(subtree_path, [subtree_path])]
+  | Leaf _ (Some args) => [(subtree_path, map (arg_path subtree_path) args)]
+  end.
+
+Definition leaf_cases (ts : list tree) : list (str * list str) := flat_map (leaf_cases_tree []) ts.
+
 (** No empty group and no leaf with an emptied argument list anywhere. *)
 Fixpoint no_empty_tree (t : tree) : bool :=
   match t with
